@@ -82,6 +82,11 @@ CHECKS = {
             "Per-ring messages are sent for every ring index 0..=255 (rejected iff out of range); SET_VRING_NUM for 0..=300 and boundaries (all of 0..=65535 at thorough) with the queue size read back by a custom listener running inside the worker; SET_VRING_BASE/GET_VRING_BASE and the used index found in guest memory at SET_VRING_ADDR over 0..=260 and boundaries (0..=65535 at thorough); 343 address triples; SET_FEATURES for 7 offered masks x single bits / offered+-one bit / patterns on 1-3 queues (subset check, exact delivery to acked_features, EVENT_IDX to every queue and the backend); the backend-request channel under the 8 subsets of {REPLY_ACK, SHARED_OBJECT, SHMEM}; and every history of length <= 4 (5 thorough) over {memory table A, B, SET_VRING_ADDR, SET_VRING_CALL fd1/fd2/none, add_used+signal}, after which the used element must be in the latest table's file and only the latest call descriptor's counter may have moved.",
             "Trusted: virtio-queue accessors as the view of the ring; eventfd counters from /proc fdinfo. Values between sweep points at quick tier.",
             "DESIGN.md 4/C14"),
+    "C16": ("model_checking", "sched",
+            "stateless depth-first exploration of the interleavings of the real daemon thread with 1-3 real shutdown callers and a scripted peer under a controlled scheduler, plus sequential fault enumeration of peer-close offsets",
+            "For 0..=3 concurrent ShutdownHandle::shutdown() callers and 11 peer behaviours (idle, header only, full request, 2-3 fragments, close at several byte offsets, invalid header) all schedules of the daemon thread (points: each recvmsg, sendmsg, the final socket shutdown), the callers (a point before the call and at the socket shutdown, i.e. between storing the flag and shutting the socket down) and the peer script with at most 2 (3 at thorough) preemptions are enumerated. At quiescence the explorer decides: the daemon thread has exited (or wait() would never return), wait() = Ok after a shutdown request and Err for a disconnect seen while reading without one, the peer reads end-of-stream, and a second start() on the same listener serves a request. Sequentially, the peer closes at every byte offset 0..=20 of a request under start+wait and under serve() (result mapping, exit events raised), and the process's thread count returns to its initial value after dropping the daemons.",
+            "Trusted: thread exit detected through /proc/self/task; preemption-bounded exploration. A peer vanishing while the daemon writes (SocketBroken) is accepted either way.",
+            "DESIGN.md 4/C16"),
     "C17": ("model_checking", "lattice",
             "exhaustive enumeration of queues-per-thread configurations (all mask assignments for n<=4 queues on <=3 workers) x every queue kicked on a real daemon, plus custom listener ids over the 64-bit boundary set",
             "For every assignment of n = 1..=4 (5 at thorough) queues to 1..=3 worker masks drawn from all non-empty subsets of the n bits (and masks with bits beyond n) a real daemon is started, every ring is given a distinct size, started and enabled, every queue is kicked once and a barrier is placed on every worker: exactly one dispatch must be observed, on the first thread whose mask contains the queue, with event id = number of lower-numbered queues in that mask, and vrings[event id] must be the kicked ring (identified by its size); the exit event must be registered with id num_queues. Custom listener ids {0..5, 255, 256, 65534..65538, 2^32+k, 2^64-1} must be refused (reserved range, or not representable) or delivered with exactly the registered id while queues keep working.",
